@@ -54,6 +54,7 @@ T = {
  'c18t': ('inline of a callee with a free variable from another scope, then the source compiled afresh', 'C18 H1/A3/H2 on uses_closure'),
  'c19r': ('a candidate call inside the argument of another candidate call, aimed at by index', 'C19 index-and-listed-site-differ'),
  'c19s': ('an empty region of the listed program as within=', 'C19 within-not-the-sites-at-or-beneath (needed empty regions as within= and as aims)'),
+ 'c19u': ("a call inlined out of a compound statement's header and an expression cursor into that header", 'C19 forward-expr-unrelated'),
 }
 base = os.path.join(os.path.dirname(os.path.dirname(os.path.abspath(__file__))), 'seeded')
 for mid, (needs, caught) in T.items():
